@@ -26,6 +26,14 @@ def hexArgN (s : String) (n : Nat) : Out Bytes :=
   | some b => if b.length == n then .ok b else .throw .stdOther
   | none => .throw .stdOther
 
+/-- `mapM` in the `Out` monad, by structural recursion -/
+def mapOut {α β} (f : α → Out β) : List α → Out (List β)
+  | [] => .ok []
+  | a :: as => do
+    let b ← f a
+    let bs ← mapOut f as
+    pure (b :: bs)
+
 structure Icmp4 where
   type : Nat
   code : Nat
